@@ -849,7 +849,8 @@ def write_case(case, path):
 def check_file_case(ctx, pq, w, case, path, conf_budget):
     classes = file_case_classes(case)
     versions = sorted({lay["version"] for rg in case["rgs"] for lay in rg["layout"].values()})
-    encs = sorted({"dict" if lay["dictionary"] else "plain" for rg in case["rgs"] for lay in rg["layout"].values()})
+    encs = sorted({("dict2" if lay.get("legacy_dict") else "dict8") if lay["dictionary"] else "plain"
+                   for rg in case["rgs"] for lay in rg["layout"].values()})
     trivial = (len(case["rgs"]) == 1 and all(len(r) <= 1 for rg in case["rgs"] for r in rg["rows"].values())
                and all(not lay["cuts"] for rg in case["rgs"] for lay in rg["layout"].values()))
     ctx.case(case, trivial=trivial)
@@ -909,7 +910,8 @@ def gen_layout(rng, rep, version, force_cuts=None, maxcuts=3, ptype=None):
         cand = list(range(1, len(rep))) if version == 1 else row_boundaries(rep)
         cuts = sorted(rng.sample(cand, min(len(cand), rng.choice([0, 1, 1, 2, maxcuts]))))
     return dict(cuts=cuts, version=version, dictionary=(rng.random() < 0.5 and ptype != "boolean"),
-                level_style=rng.choice(["mixed", "rle", "bp"]), codec=rng.choice([None, None, "SNAPPY", "GZIP"]))
+                level_style=rng.choice(["mixed", "rle", "bp"]), codec=rng.choice([None, None, "SNAPPY", "GZIP"]),
+                legacy_dict=rng.random() < 0.5)
 
 
 def stage_files(ctx, pq, w):
